@@ -1144,7 +1144,7 @@ Lemma v2_norm_sum1 : forall P : list R, 0 < sumA (A:=RealA) P ->
   sumA (A:=RealA) (v2_norm (sumA (A:=RealA) P) P) = 1.
 Proof. intros P HP. rewrite v2_norm_sum. eqR. field. change (num RealA) with R in *. lra. Qed.
 
-(** [js_f] with the guards resolved *)
+(** [jensenshannon] with the guards resolved *)
 Definition v2_js_body (p q : list R) : xnum (A:=RealA) :=
   match xadd (xsum (map2 (rel_entr (A:=RealA)) p (map2 v2_avg p q)))
              (xsum (map2 (rel_entr (A:=RealA)) q (map2 v2_avg p q))) with
@@ -1153,7 +1153,7 @@ Definition v2_js_body (p q : list R) : xnum (A:=RealA) :=
   end.
 
 Lemma v2_js_unfold : forall P Q : list R,
-  js_f (A:=RealA) P Q =
+  jensenshannon (A:=RealA) P Q =
   if Reqb (sumA (A:=RealA) P) 0 then NaN
   else if Reqb (sumA (A:=RealA) Q) 0 then NaN
   else v2_js_body (v2_norm (sumA (A:=RealA) P) P) (v2_norm (sumA (A:=RealA) Q) Q).
@@ -1173,14 +1173,14 @@ Proof.
   destruct (xadd _ _); [discriminate | discriminate | exact H].
 Qed.
 
-Lemma js_sym : forall P Q : list R, js_f (A:=RealA) P Q = js_f (A:=RealA) Q P.
+Lemma js_sym : forall P Q : list R, jensenshannon (A:=RealA) P Q = jensenshannon (A:=RealA) Q P.
 Proof.
   intros P Q. rewrite !v2_js_unfold.
   destruct (Reqb (sumA (A:=RealA) P) 0), (Reqb (sumA (A:=RealA) Q) 0); try reflexivity.
   apply v2_js_body_sym.
 Qed.
 
-Lemma js_self : forall P : list R, nonneg P -> 0 < sumA (A:=RealA) P -> js_f (A:=RealA) P P = Fin 0.
+Lemma js_self : forall P : list R, nonneg P -> 0 < sumA (A:=RealA) P -> jensenshannon (A:=RealA) P P = Fin 0.
 Proof.
   intros P HP Hs. rewrite v2_js_unfold.
   rewrite (proj2 (Reqb_false (sumA (A:=RealA) P) 0)) by lra.
@@ -1191,7 +1191,7 @@ Proof.
 Qed.
 
 Lemma js_nan_iff : forall P Q : list R, nonneg P -> nonneg Q ->
-  (js_f (A:=RealA) P Q = NaN <-> sumA (A:=RealA) P = 0 \/ sumA (A:=RealA) Q = 0).
+  (jensenshannon (A:=RealA) P Q = NaN <-> sumA (A:=RealA) P = 0 \/ sumA (A:=RealA) Q = 0).
 Proof.
   intros P Q HP HQ. rewrite v2_js_unfold.
   destruct (Reqb (sumA (A:=RealA) P) 0) eqn:E1.
@@ -1230,7 +1230,7 @@ Qed.
 
 Lemma js_range : forall P Q : list R, nonneg P -> nonneg Q -> length P = length Q ->
   0 < sumA (A:=RealA) P -> 0 < sumA (A:=RealA) Q ->
-  exists v : R, js_f (A:=RealA) P Q = Fin v /\ 0 <= v /\ v <= sqrt (ln 2).
+  exists v : R, jensenshannon (A:=RealA) P Q = Fin v /\ 0 <= v /\ v <= sqrt (ln 2).
 Proof.
   intros P Q HP HQ HL SP SQ. rewrite v2_js_unfold.
   rewrite (proj2 (Reqb_false (sumA (A:=RealA) P) 0)) by lra.
@@ -2291,7 +2291,7 @@ Lemma hi_dist_perm : forall (nb : nat) (X X' Y Y' : list R), Permutation X X' ->
   hi_dist (A:=RealA) nb X Y = hi_dist (A:=RealA) nb X' Y'.
 Proof. intros nb X X' Y Y' HX HY. rewrite !c_hi_eq, (hi_props_perm nb X X' Y Y' HX HY). reflexivity. Qed.
 
-(** ** JS / KL, relative to the auto-histogram oracle [hX], [hY] *)
+(** ** JS / KL BEFORE the repair 5e463cd (points spanning the pooled sample range): [js_dist_pre], [kl_dist_pre] *)
 Lemma pooled_points_perm : forall (nb : nat) (X X' Y Y' : list R), Permutation X X' -> Permutation Y Y' ->
   pooled_points (A:=RealA) X Y nb = pooled_points (A:=RealA) X' Y' nb.
 Proof.
@@ -2315,52 +2315,52 @@ Qed.
 Lemma masses_length : forall (c : list Z) (e pts : list R), length (masses (A:=RealA) c e pts) = pred (length pts).
 Proof. intros. unfold masses. apply c_diffF_length. Qed.
 
-Lemma js_dist_sym : forall (nb : nat) (hX hY : list Z * list R) (X Y : list R),
-  js_dist (A:=RealA) nb hX hY X Y = js_dist (A:=RealA) nb hY hX Y X.
-Proof. intros. unfold js_dist. rewrite (pooled_points_swap nb X Y). apply js_sym. Qed.
-Lemma js_dist_perm : forall (nb : nat) (hX hY : list Z * list R) (X X' Y Y' : list R), Permutation X X' -> Permutation Y Y' ->
-  js_dist (A:=RealA) nb hX hY X Y = js_dist (A:=RealA) nb hX hY X' Y'.
-Proof. intros nb hX hY X X' Y Y' HX HY. unfold js_dist. rewrite (pooled_points_perm nb X X' Y Y' HX HY). reflexivity. Qed.
-Lemma kl_dist_perm : forall (nb : nat) (hX hY : list Z * list R) (X X' Y Y' : list R), Permutation X X' -> Permutation Y Y' ->
-  kl_dist (A:=RealA) nb hX hY X Y = kl_dist (A:=RealA) nb hX hY X' Y'.
-Proof. intros nb hX hY X X' Y Y' HX HY. unfold kl_dist. rewrite (pooled_points_perm nb X X' Y Y' HX HY). reflexivity. Qed.
+Lemma js_pre_sym : forall (nb : nat) (hX hY : list Z * list R) (X Y : list R),
+  js_dist_pre (A:=RealA) nb hX hY X Y = js_dist_pre (A:=RealA) nb hY hX Y X.
+Proof. intros. unfold js_dist_pre. rewrite (pooled_points_swap nb X Y). apply js_sym. Qed.
+Lemma js_pre_perm : forall (nb : nat) (hX hY : list Z * list R) (X X' Y Y' : list R), Permutation X X' -> Permutation Y Y' ->
+  js_dist_pre (A:=RealA) nb hX hY X Y = js_dist_pre (A:=RealA) nb hX hY X' Y'.
+Proof. intros nb hX hY X X' Y Y' HX HY. unfold js_dist_pre. rewrite (pooled_points_perm nb X X' Y Y' HX HY). reflexivity. Qed.
+Lemma kl_pre_perm : forall (nb : nat) (hX hY : list Z * list R) (X X' Y Y' : list R), Permutation X X' -> Permutation Y Y' ->
+  kl_dist_pre (A:=RealA) nb hX hY X Y = kl_dist_pre (A:=RealA) nb hX hY X' Y'.
+Proof. intros nb hX hY X X' Y Y' HX HY. unfold kl_dist_pre. rewrite (pooled_points_perm nb X X' Y Y' HX HY). reflexivity. Qed.
 
 (** range, given that the discretised masses of the two oracle histograms are non-negative
     with a positive total *)
-Lemma js_dist_range : forall (nb : nat) (hX hY : list Z * list R) (X Y : list R),
+Lemma js_pre_range : forall (nb : nat) (hX hY : list Z * list R) (X Y : list R),
   let P := masses (A:=RealA) (fst hX) (snd hX) (pooled_points (A:=RealA) X Y nb) in
   let Q := masses (A:=RealA) (fst hY) (snd hY) (pooled_points (A:=RealA) X Y nb) in
   nonneg P -> nonneg Q -> 0 < sumA (A:=RealA) P -> 0 < sumA (A:=RealA) Q ->
-  exists v : R, js_dist (A:=RealA) nb hX hY X Y = Fin v /\ 0 <= v /\ v <= sqrt (ln 2).
+  exists v : R, js_dist_pre (A:=RealA) nb hX hY X Y = Fin v /\ 0 <= v /\ v <= sqrt (ln 2).
 Proof.
-  intros nb hX hY X Y P Q HP HQ HsP HsQ. unfold js_dist. apply js_range; auto.
+  intros nb hX hY X Y P Q HP HQ HsP HsQ. unfold js_dist_pre. apply js_range; auto.
   unfold P, Q. rewrite !masses_length. reflexivity.
 Qed.
-Lemma js_dist_self : forall (nb : nat) (h : list Z * list R) (X : list R),
+Lemma js_pre_self : forall (nb : nat) (h : list Z * list R) (X : list R),
   let P := masses (A:=RealA) (fst h) (snd h) (pooled_points (A:=RealA) X X nb) in
-  nonneg P -> 0 < sumA (A:=RealA) P -> js_dist (A:=RealA) nb h h X X = Fin 0.
-Proof. intros nb h X P HP Hs. unfold js_dist. apply js_self; auto. Qed.
-Lemma kl_dist_self : forall (nb : nat) (h : list Z * list R) (X : list R),
-  nonneg (masses (A:=RealA) (fst h) (snd h) (pooled_points (A:=RealA) X X nb)) -> kl_dist (A:=RealA) nb h h X X = Fin 0.
-Proof. intros nb h X HP. unfold kl_dist. apply kl_self; auto. Qed.
+  nonneg P -> 0 < sumA (A:=RealA) P -> js_dist_pre (A:=RealA) nb h h X X = Fin 0.
+Proof. intros nb h X P HP Hs. unfold js_dist_pre. apply js_self; auto. Qed.
+Lemma kl_pre_self : forall (nb : nat) (h : list Z * list R) (X : list R),
+  nonneg (masses (A:=RealA) (fst h) (snd h) (pooled_points (A:=RealA) X X nb)) -> kl_dist_pre (A:=RealA) nb h h X X = Fin 0.
+Proof. intros nb h X HP. unfold kl_dist_pre. apply kl_self; auto. Qed.
 (** KL(test || reference) >= 0 (or +inf) PROVIDED the test masses total at least the reference
     masses — which fails when the test sample is constant (its histogram [c-1/2, c+1/2] spills
     outside the pooled range) *)
-Lemma kl_dist_nonneg : forall (nb : nat) (hX hY : list Z * list R) (X Y : list R),
+Lemma kl_pre_nonneg : forall (nb : nat) (hX hY : list Z * list R) (X Y : list R),
   let P := masses (A:=RealA) (fst hX) (snd hX) (pooled_points (A:=RealA) X Y nb) in
   let Q := masses (A:=RealA) (fst hY) (snd hY) (pooled_points (A:=RealA) X Y nb) in
   nonneg P -> nonneg Q -> sumA (A:=RealA) P <= sumA (A:=RealA) Q ->
-  kl_dist (A:=RealA) nb hX hY X Y = PInf \/ exists v : R, kl_dist (A:=RealA) nb hX hY X Y = Fin v /\ 0 <= v.
+  kl_dist_pre (A:=RealA) nb hX hY X Y = PInf \/ exists v : R, kl_dist_pre (A:=RealA) nb hX hY X Y = Fin v /\ 0 <= v.
 Proof.
-  intros nb hX hY X Y P Q HP HQ Hs. unfold kl_dist. apply kl_nonneg; auto.
+  intros nb hX hY X Y P Q HP HQ Hs. unfold kl_dist_pre. apply kl_nonneg; auto.
   unfold P, Q. rewrite !masses_length. reflexivity.
 Qed.
-Lemma kl_dist_lower : forall (nb : nat) (hX hY : list Z * list R) (X Y : list R) (v : R),
+Lemma kl_pre_lower : forall (nb : nat) (hX hY : list Z * list R) (X Y : list R) (v : R),
   let P := masses (A:=RealA) (fst hX) (snd hX) (pooled_points (A:=RealA) X Y nb) in
   let Q := masses (A:=RealA) (fst hY) (snd hY) (pooled_points (A:=RealA) X Y nb) in
-  nonneg P -> nonneg Q -> kl_dist (A:=RealA) nb hX hY X Y = Fin v -> sumA (A:=RealA) Q - sumA (A:=RealA) P <= v.
+  nonneg P -> nonneg Q -> kl_dist_pre (A:=RealA) nb hX hY X Y = Fin v -> sumA (A:=RealA) Q - sumA (A:=RealA) P <= v.
 Proof.
-  intros nb hX hY X Y v P Q HP HQ Hv. unfold kl_dist in Hv. apply (kl_lower P Q); auto.
+  intros nb hX hY X Y v P Q HP HQ Hv. unfold kl_dist_pre in Hv. apply (kl_lower P Q); auto.
   unfold P, Q. rewrite !masses_length. reflexivity.
 Qed.
 
@@ -2400,11 +2400,11 @@ Proof.
     constructor; [lra | exact Hn].
 Qed.
 
-Lemma js_dist_const_nan : forall (nb : nat) (hX hY : list Z * list R) (X Y : list R) (c : R),
+Lemma js_pre_const_nan : forall (nb : nat) (hX hY : list Z * list R) (X Y : list R) (c : R),
   X <> [] -> Y <> [] -> (forall x, In x X -> x = c) -> (forall y, In y Y -> y = c) ->
-  js_dist (A:=RealA) nb hX hY X Y = NaN.
+  js_dist_pre (A:=RealA) nb hX hY X Y = NaN.
 Proof.
-  intros nb hX hY X Y c HX HY HcX HcY. unfold js_dist.
+  intros nb hX hY X Y c HX HY HcX HcY. unfold js_dist_pre.
   assert (Hpool : X ++ Y <> []) by (destruct X; [congruence | discriminate]).
   assert (Hc : forall x, In x (X ++ Y) -> x = c) by (intros x Hx; apply in_app_or in Hx; destruct Hx; auto).
   assert (Hpts : forall x, In x (pooled_points (A:=RealA) X Y nb) -> x = c).
@@ -2449,13 +2449,13 @@ Proof.
   unfold sumA. cbn [fold_left add RealA]. change (@zero RealA) with 0. eqR. field.
 Qed.
 
-Lemma kl_negative_witness :
+Lemma kl_pre_negative_witness :
   let X := [0; 1/2] in let hX := ([1%Z; 1%Z], [0; 1/4; 1/2]) in
   let Y := [0] in let hY := ([1%Z], [-1/2; 1/2]) in
-  exists v : R, kl_dist (A:=RealA) 2 hX hY X Y = Fin v /\ v < 0.
+  exists v : R, kl_dist_pre (A:=RealA) 2 hX hY X Y = Fin v /\ v < 0.
 Proof.
   intros X hX Y hY. exists ((1 - 1/2) * ln ((1 - 1/2) / (1 - 0))). split.
-  - unfold kl_dist, pooled_points.
+  - unfold kl_dist_pre, pooled_points.
     assert (Hmin : lmin (A:=RealA) (X ++ Y) = 0).
     { apply Rle_antisym; [apply lmin_le; cbn; auto|].
       destruct (lmin_in (X ++ Y) ltac:(discriminate)) as [H|[H|[H|[]]]]; rewrite <- H; lra. }
@@ -2475,5 +2475,575 @@ Proof.
   - replace ((1 - 1/2) / (1 - 0)) with (/ 2) by field.
     change (@ln RealA) with Rpower.ln. rewrite ln_Rinv by lra.
     assert (0 < Rpower.ln 2) by (rewrite <- ln_1; apply ln_increasing; lra). lra.
+Qed.
+
+(** * Part M — [rv_histogram]: the CDF table, range and monotonicity of the CDF,
+      non-negativity of the discretised masses *)
+
+(** contract of the oracle np.histogram(sample, bins="auto") for a non-empty sample *)
+Definition valid_hist (h : list Z * list R) : Prop :=
+  length (snd h) = S (length (fst h)) /\ fst h <> [] /\
+  (forall i : nat, (S i < length (snd h))%nat -> nth i (snd h) 0 < nth (S i) (snd h) 0) /\
+  Forall (fun c => (0 <= c)%Z) (fst h) /\ (0 < Zsum (fst h))%Z.
+
+(** ** strictly increasing lists, pairwise form *)
+Definition m_inc (l : list R) : Prop :=
+  forall i j : nat, (i < j)%nat -> (j < length l)%nat -> nth i l 0 < nth j l 0.
+
+Lemma m_inc_of_nth : forall l : list R,
+  (forall i : nat, (S i < length l)%nat -> nth i l 0 < nth (S i) l 0) -> m_inc l.
+Proof.
+  intros l H i j. revert i. induction j as [|j IH]; intros i Hij Hj; [lia|].
+  destruct (Nat.eq_dec i j) as [->|Hne].
+  - apply H; lia.
+  - apply Rlt_trans with (nth j l 0); [apply IH; lia | apply H; lia].
+Qed.
+
+Lemma m_inc_tail : forall (a : R) (r : list R), m_inc (a :: r) -> m_inc r.
+Proof. intros a r H i j Hij Hj. apply (H (S i) (S j)); cbn [length]; lia. Qed.
+
+Lemma m_inc_head : forall (a : R) (r : list R) (v : R), m_inc (a :: r) -> In v r -> a < v.
+Proof.
+  intros a r v H Hin. destruct (In_nth r v 0 Hin) as [i [Hi Hv]]. rewrite <- Hv.
+  apply (H 0%nat (S i)); cbn [length]; lia.
+Qed.
+
+Lemma m_inc_le : forall (l : list R) (i j : nat), m_inc l -> (i <= j)%nat -> (j < length l)%nat ->
+  nth i l 0 <= nth j l 0.
+Proof.
+  intros l i j H Hij Hj. destruct (Nat.eq_dec i j) as [->|Hne]; [lra|].
+  left. apply H; lia.
+Qed.
+
+(** indices are ordered like the values *)
+Lemma m_inc_idx : forall (l : list R) (i j : nat), m_inc l -> (i < length l)%nat -> (j < length l)%nat ->
+  nth i l 0 < nth j l 0 -> (i < j)%nat.
+Proof.
+  intros l i j H Hi Hj Hlt. destruct (Nat.lt_ge_cases i j) as [Hc|Hc]; [exact Hc|].
+  pose proof (m_inc_le l j i H Hc Hi). lra.
+Qed.
+
+Lemma m_last_nth : forall l : list R, last l 0 = nth (pred (length l)) l 0.
+Proof.
+  induction l as [|a r IH]; [reflexivity|].
+  destruct r as [|b r]; [reflexivity|].
+  change (last (a :: b :: r) 0) with (last (b :: r) 0). rewrite IH. reflexivity.
+Qed.
+
+Lemma m_hd_nth : forall l : list R, hd 0 l = nth 0 l 0.
+Proof. intros [|a r]; reflexivity. Qed.
+
+(** ** the index chosen by [np.interp] *)
+Lemma m_count_spec : forall (e : list R) (x : R), m_inc e ->
+  (forall i : nat, (i < length (filter (fun v : R => Rleb v x) e))%nat -> nth i e 0 <= x) /\
+  (forall i : nat, (length (filter (fun v : R => Rleb v x) e) <= i)%nat -> (i < length e)%nat -> x < nth i e 0).
+Proof.
+  induction e as [|a r IH]; intros x He.
+  - split; intros i Hi; cbn in *; lia.
+  - cbn [filter]. destruct (Rleb_spec a x) as [Hax|Hax].
+    + destruct (IH x (m_inc_tail _ _ He)) as [IH1 IH2]. split.
+      * intros [|i] Hi; cbn [nth]; [lra|]. apply IH1. cbn [length] in Hi. lia.
+      * intros [|i] Hk Hi; cbn [length] in *; [lia|]. cbn [nth]. apply IH2; lia.
+    + assert (Hnone : filter (fun v : R => Rleb v x) r = []).
+      { apply e_filter_none. intros v Hv. apply Rleb_false.
+        pose proof (m_inc_head _ _ _ He Hv). lra. }
+      rewrite Hnone. split.
+      * intros i Hi. cbn in Hi. lia.
+      * intros [|i] _ Hi; cbn [nth]; [lra|]. cbn [length] in Hi.
+        assert (a < nth i r 0) by (apply (He 0%nat (S i)); cbn [length]; lia). lra.
+Qed.
+
+Lemma m_index : forall (e : list R) (x : R), m_inc e -> hd 0 e < x -> x < last e 0 ->
+  (S (pred (length (filter (fun v : R => Rleb v x) e))) < length e)%nat /\
+  nth (pred (length (filter (fun v : R => Rleb v x) e))) e 0 <= x /\
+  x < nth (S (pred (length (filter (fun v : R => Rleb v x) e)))) e 0.
+Proof.
+  intros e x He Hlo Hhi.
+  destruct (m_count_spec e x He) as [H1 H2].
+  pose proof (u_filter_length_le (fun v : R => Rleb v x) e) as Hle.
+  rewrite m_hd_nth in Hlo. rewrite m_last_nth in Hhi.
+  set (k := length (filter (fun v : R => Rleb v x) e)) in *.
+  assert (Hlen : (0 < length e)%nat).
+  { destruct e; [cbn in *; lra | cbn; lia]. }
+  assert (Hk0 : (0 < k)%nat).
+  { destruct (Nat.eq_dec k 0) as [E|]; [|lia].
+    pose proof (H2 0%nat ltac:(lia) Hlen). lra. }
+  assert (Hk1 : (k < length e)%nat).
+  { destruct (Nat.eq_dec k (length e)) as [E|]; [|lia].
+    pose proof (H1 (pred (length e)) ltac:(lia)). lra. }
+  replace (S (pred k)) with k by lia.
+  split; [exact Hk1|]. split; [apply H1; lia | apply H2; lia].
+Qed.
+
+(** ** the CDF table *)
+Lemma m_diffA_cons2 : forall (a b : R) (r : list R),
+  diffA (A:=RealA) (a :: b :: r) = (b - a) :: diffA (A:=RealA) (b :: r).
+Proof. reflexivity. Qed.
+
+Lemma m_diffA_length : forall l : list R, length (diffA (A:=RealA) l) = pred (length l).
+Proof.
+  induction l as [|a r IH]; [reflexivity|].
+  destruct r as [|b r]; [reflexivity|].
+  rewrite m_diffA_cons2. cbn [length pred] in *. rewrite IH. reflexivity.
+Qed.
+
+Lemma m_diffA_pos : forall l : list R, m_inc l -> Forall (fun v : R => 0 < v) (diffA (A:=RealA) l).
+Proof.
+  induction l as [|a r IH]; intros Hl; [constructor|].
+  destruct r as [|b r]; [constructor|].
+  rewrite m_diffA_cons2. constructor.
+  - pose proof (Hl 0%nat 1%nat ltac:(lia) ltac:(cbn [length]; lia)) as H. cbn [nth] in H. lra.
+  - apply IH. eapply m_inc_tail; eauto.
+Qed.
+
+(** [hpdf * widths] gives back the counts *)
+Lemma m_pdf0_mul : forall (c : list Z) (w : list R), Forall (fun v : R => 0 < v) w ->
+  map2 Rmult (map2 (fun (c0 : Z) (wi : R) => IZR c0 / wi) c w) w = map2 (fun (c0 : Z) (_ : R) => IZR c0) c w.
+Proof.
+  induction c as [|z c IH]; intros w Hw; [reflexivity|].
+  destruct w as [|v w]; [reflexivity|]. inversion Hw as [|? ? Hv Hw']; subst.
+  cbn [map2]. rewrite IH by assumption. f_equal. field. lra.
+Qed.
+
+Lemma m_pdf_mul : forall (tot : R) (c : list Z) (w : list R), tot <> 0 -> Forall (fun v : R => 0 < v) w ->
+  map2 Rmult (map (fun v : R => v / tot) (map2 (fun (c0 : Z) (wi : R) => IZR c0 / wi) c w)) w =
+  map2 (fun (c0 : Z) (_ : R) => IZR c0 / tot) c w.
+Proof.
+  intros tot. induction c as [|z c IH]; intros w Ht Hw; [reflexivity|].
+  destruct w as [|v w]; [reflexivity|]. inversion Hw as [|? ? Hv Hw']; subst.
+  cbn [map2 map]. rewrite IH by assumption. f_equal. field. split; lra.
+Qed.
+
+Lemma m_map2_fst : forall (f : Z -> R) (c : list Z) (w : list R), length c = length w ->
+  map2 (fun (c0 : Z) (_ : R) => f c0) c w = map f c.
+Proof.
+  intros f. induction c as [|z c IH]; intros [|v w] HL; cbn [length] in HL; try discriminate; [reflexivity|].
+  cbn [map2 map]. rewrite IH by lia. reflexivity.
+Qed.
+
+Lemma m_sum_IZR : forall c : list Z, sumA (A:=RealA) (map IZR c) = IZR (Zsum c).
+Proof.
+  induction c as [|z c IH]; [reflexivity|].
+  cbn [map Zsum fold_right]. rewrite sumA_cons, IH, plus_IZR. reflexivity.
+Qed.
+
+Lemma m_sum_IZR_div : forall (tot : R) (c : list Z),
+  sumA (A:=RealA) (map (fun z : Z => IZR z / tot) c) = IZR (Zsum c) / tot.
+Proof.
+  intros tot. induction c as [|z c IH].
+  - cbn [map Zsum fold_right]. sumA0. unfold Rdiv. rewrite Rmult_0_l. reflexivity.
+  - cbn [map Zsum fold_right]. rewrite sumA_cons, IH, plus_IZR. fold (Zsum c). eqR. unfold Rdiv. ring.
+Qed.
+
+Lemma m_cumsum_head : forall l : list R,
+  match l with [] => [] | x :: r => x :: cumsumA (A:=RealA) x r end = cumsumA (A:=RealA) 0 l.
+Proof.
+  intros [|x r]; [reflexivity|]. cbn [cumsumA]. cbn [add RealA]. rewrite Rplus_0_l. reflexivity.
+Qed.
+
+(** the increments of the table: [counts / total] *)
+Definition m_incs (c : list Z) : list R := map (fun z : Z => IZR z / IZR (Zsum c)) c.
+
+Lemma m_table_eq : forall (c : list Z) (e : list R), length e = S (length c) -> m_inc e -> (0 < Zsum c)%Z ->
+  rvh_cdf_table (A:=RealA) c e = 0 :: cumsumA (A:=RealA) 0 (m_incs c).
+Proof.
+  intros c e HL He Hs.
+  assert (Hw := m_diffA_pos e He).
+  assert (HLw : length c = length (diffA (A:=RealA) e)) by (rewrite m_diffA_length; lia).
+  assert (Htot : 0 < IZR (Zsum c)) by (apply IZR_lt; exact Hs).
+  unfold rvh_cdf_table. cbv zeta. cbn [add sub mul div ofZ RealA num].
+  change (@zero RealA) with 0.
+  rewrite (m_pdf0_mul c _ Hw), (m_map2_fst IZR c _ HLw), m_sum_IZR.
+  assert (Hne0 : IZR (Zsum c) <> 0) by lra.
+  rewrite (m_pdf_mul (IZR (Zsum c)) c _ Hne0 Hw), (m_map2_fst (fun z : Z => IZR z / IZR (Zsum c)) c _ HLw).
+  fold (m_incs c). rewrite m_cumsum_head. reflexivity.
+Qed.
+
+Lemma m_incs_length : forall c : list Z, length (m_incs c) = length c.
+Proof. intros c. unfold m_incs. apply map_length. Qed.
+
+Lemma m_incs_nonneg : forall c : list Z, Forall (fun z => (0 <= z)%Z) c -> (0 < Zsum c)%Z -> nonneg (m_incs c).
+Proof.
+  intros c Hc Hs. assert (Htot : 0 < IZR (Zsum c)) by (apply IZR_lt; exact Hs).
+  unfold m_incs, nonneg. apply Forall_map. eapply Forall_impl; [|exact Hc].
+  intros z Hz. cbv beta.
+  apply Rmult_le_pos; [apply IZR_le; exact Hz | left; apply Rinv_0_lt_compat; exact Htot].
+Qed.
+
+Lemma m_incs_sum : forall c : list Z, (0 < Zsum c)%Z -> sumA (A:=RealA) (m_incs c) = 1.
+Proof.
+  intros c Hs. assert (Htot : 0 < IZR (Zsum c)) by (apply IZR_lt; exact Hs).
+  unfold m_incs. rewrite m_sum_IZR_div. eqR. field. lra.
+Qed.
+
+(** running sums *)
+Lemma m_cumsum_length : forall (l : list R) (a : R), length (cumsumA (A:=RealA) a l) = length l.
+Proof. induction l as [|x r IH]; intros a; cbn [cumsumA length]; [reflexivity|]. rewrite IH. reflexivity. Qed.
+
+Lemma m_cumsum_step : forall (l : list R) (a : R) (i : nat), (i < length l)%nat ->
+  nth (S i) (a :: cumsumA (A:=RealA) a l) 0 = nth i (a :: cumsumA (A:=RealA) a l) 0 + nth i l 0.
+Proof.
+  induction l as [|x r IH]; intros a i Hi; cbn [length] in Hi; [lia|].
+  cbn [cumsumA]. destruct i as [|i].
+  - reflexivity.
+  - exact (IH (a + x) i ltac:(lia)).
+Qed.
+
+Lemma m_last_cons2 : forall (a b : R) (l : list R), last (a :: b :: l) 0 = last (b :: l) 0.
+Proof. reflexivity. Qed.
+
+Lemma m_cumsum_last : forall (l : list R) (a : R),
+  last (a :: cumsumA (A:=RealA) a l) 0 = a + sumA (A:=RealA) l.
+Proof.
+  induction l as [|x r IH]; intros a.
+  - cbn [cumsumA last]. sumA0. lra.
+  - cbn [cumsumA].
+    rewrite m_last_cons2.
+    rewrite IH, sumA_cons. cbn [add RealA]. lra.
+Qed.
+
+Lemma m_nondecr_le : forall (t : list R),
+  (forall i : nat, (S i < length t)%nat -> nth i t 0 <= nth (S i) t 0) ->
+  forall i j : nat, (i <= j)%nat -> (j < length t)%nat -> nth i t 0 <= nth j t 0.
+Proof.
+  intros t H i j. revert i. induction j as [|j IH]; intros i Hij Hj.
+  - replace i with 0%nat by lia. lra.
+  - destruct (Nat.eq_dec i (S j)) as [->|Hne]; [lra|].
+    apply Rle_trans with (nth j t 0); [apply IH; lia | apply H; lia].
+Qed.
+
+Lemma m_valid_inc : forall h : list Z * list R, valid_hist h -> m_inc (snd h).
+Proof. intros h (_ & _ & H & _). apply m_inc_of_nth. exact H. Qed.
+
+Lemma valid_hist_range : forall h : list Z * list R, valid_hist h -> hd 0 (snd h) < last (snd h) 0.
+Proof.
+  intros h Hv. pose proof (m_valid_inc h Hv) as Hinc.
+  destruct Hv as (HL & Hne & _).
+  rewrite m_hd_nth, m_last_nth. apply Hinc.
+  - destruct (fst h); [congruence|]. cbn [length] in HL. lia.
+  - destruct (fst h); [congruence|]. cbn [length] in HL. lia.
+Qed.
+
+(* the CDF table is 0 = t_0 <= t_1 <= ... <= t_k = 1 *)
+Lemma rvh_table_props : forall h : list Z * list R, valid_hist h ->
+  let t := rvh_cdf_table (A:=RealA) (fst h) (snd h) in
+  length t = length (snd h) /\ nth 0 t 0 = 0 /\ last t 0 = 1 /\
+  (forall i : nat, (S i < length t)%nat -> nth i t 0 <= nth (S i) t 0).
+Proof.
+  intros h Hv. pose proof (m_valid_inc h Hv) as Hinc.
+  destruct Hv as (HL & Hne & _ & Hc & Hs).
+  cbv zeta. rewrite (m_table_eq _ _ HL Hinc Hs).
+  pose proof (m_incs_nonneg _ Hc Hs) as Hnn.
+  split; [|split; [|split]].
+  - cbn [length]. rewrite m_cumsum_length, m_incs_length. lia.
+  - reflexivity.
+  - rewrite m_cumsum_last, m_incs_sum by exact Hs. lra.
+  - intros i Hi. cbn [length] in Hi. rewrite m_cumsum_length in Hi.
+    rewrite m_cumsum_step by lia.
+    assert (0 <= nth i (m_incs (fst h)) 0).
+    { unfold nonneg in Hnn. rewrite Forall_forall in Hnn. apply Hnn. apply nth_In. lia. }
+    change (num RealA) with R in *. lra.
+Qed.
+
+(** ** the CDF: value on a segment *)
+Lemma m_cdf_inside : forall (e t : list R) (x : R), hd 0 e < x -> x < last e 0 ->
+  rvh_cdf (A:=RealA) e t x =
+  nth (pred (length (filter (fun v : R => Rleb v x) e))) t 0 +
+  (nth (S (pred (length (filter (fun v : R => Rleb v x) e)))) t 0 -
+   nth (pred (length (filter (fun v : R => Rleb v x) e))) t 0) *
+  ((x - nth (pred (length (filter (fun v : R => Rleb v x) e))) e 0) /
+   (nth (S (pred (length (filter (fun v : R => Rleb v x) e)))) e 0 -
+    nth (pred (length (filter (fun v : R => Rleb v x) e))) e 0)).
+Proof.
+  intros e t x Hlo Hhi. unfold rvh_cdf. cbv zeta.
+  cbn [add sub mul div leb eqb ofZ RealA num].
+  change (@zero RealA) with 0. change (@one RealA) with 1. change (num RealA) with R.
+  set (j := pred (length (filter (fun v : R => Rleb v x) e))).
+  destruct (Rleb_spec x (hd 0 e)) as [H1|H1]; [lra|].
+  destruct (Rleb_spec (last e 0) x) as [H2|H2]; [lra|].
+  destruct (Reqb (nth j e 0) x) eqn:E.
+  - apply Reqb_true in E. rewrite E. unfold Rdiv. ring.
+  - unfold Rdiv. ring.
+Qed.
+
+Lemma m_interp_bounds : forall tj tj' ej ej' x : R, tj <= tj' -> ej <= x -> x < ej' ->
+  tj <= tj + (tj' - tj) * ((x - ej) / (ej' - ej)) <= tj'.
+Proof.
+  intros tj tj' ej ej' x Ht H1 H2.
+  assert (Hw : 0 < ej' - ej) by lra.
+  assert (Hl0 : 0 <= (x - ej) / (ej' - ej)).
+  { apply Rmult_le_pos; [lra | left; apply Rinv_0_lt_compat; exact Hw]. }
+  assert (Hl1 : (x - ej) / (ej' - ej) <= 1).
+  { apply Rmult_le_reg_r with (ej' - ej); [exact Hw|].
+    replace ((x - ej) / (ej' - ej) * (ej' - ej)) with (x - ej) by (field; lra). lra. }
+  set (lam := (x - ej) / (ej' - ej)) in *.
+  split.
+  - assert (0 <= (tj' - tj) * lam) by (apply Rmult_le_pos; lra). lra.
+  - assert ((tj' - tj) * lam <= (tj' - tj) * 1) by (apply Rmult_le_compat_l; lra). lra.
+Qed.
+
+Lemma m_interp_mono : forall tj tj' ej ej' x y : R, tj <= tj' -> ej < ej' -> x <= y ->
+  tj + (tj' - tj) * ((x - ej) / (ej' - ej)) <= tj + (tj' - tj) * ((y - ej) / (ej' - ej)).
+Proof.
+  intros tj tj' ej ej' x y Ht Hw Hxy.
+  apply Rplus_le_compat_l. apply Rmult_le_compat_l; [lra|].
+  unfold Rdiv. apply Rmult_le_compat_r; [|lra].
+  left. apply Rinv_0_lt_compat. lra.
+Qed.
+
+(** abstract properties of a CDF table over the edges [e] *)
+Definition m_tab (e t : list R) : Prop :=
+  length t = length e /\ nth 0 t 0 = 0 /\ last t 0 = 1 /\
+  (forall i : nat, (S i < length t)%nat -> nth i t 0 <= nth (S i) t 0).
+
+Lemma m_tab_bounds : forall (e t : list R) (i : nat), m_tab e t -> (i < length t)%nat -> 0 <= nth i t 0 <= 1.
+Proof.
+  intros e t i (HL & H0 & H1 & Hm) Hi.
+  rewrite m_last_nth in H1.
+  pose proof (m_nondecr_le t Hm 0%nat i ltac:(lia) Hi) as B0.
+  pose proof (m_nondecr_le t Hm i (pred (length t)) ltac:(lia) ltac:(lia)) as B1.
+  lra.
+Qed.
+
+(** on the segment [e_j <= x < e_(j+1)] the CDF lies between [t_j] and [t_(j+1)] *)
+Lemma m_cdf_seg : forall (e t : list R) (x : R), m_inc e -> m_tab e t -> hd 0 e < x -> x < last e 0 ->
+  nth (pred (length (filter (fun v : R => Rleb v x) e))) t 0 <= rvh_cdf (A:=RealA) e t x /\
+  rvh_cdf (A:=RealA) e t x <= nth (S (pred (length (filter (fun v : R => Rleb v x) e)))) t 0.
+Proof.
+  intros e t x He Ht Hlo Hhi.
+  rewrite (m_cdf_inside e t x Hlo Hhi).
+  destruct (m_index e x He Hlo Hhi) as (Hj & Hj1 & Hj2).
+  set (j := pred (length (filter (fun v : R => Rleb v x) e))) in *.
+  destruct Ht as (HL & _ & _ & Hm).
+  apply m_interp_bounds; auto. apply Hm. lia.
+Qed.
+
+Lemma m_cdf_range_gen : forall (e t : list R) (x : R), m_inc e -> m_tab e t ->
+  0 <= rvh_cdf (A:=RealA) e t x <= 1.
+Proof.
+  intros e t x He Ht.
+  destruct (Rle_lt_dec x (hd 0 e)) as [H1|H1].
+  { rewrite rvh_cdf_below by exact H1. lra. }
+  destruct (Rle_lt_dec (last e 0) x) as [H2|H2].
+  { rewrite rvh_cdf_above by assumption. lra. }
+  destruct (m_cdf_seg e t x He Ht H1 H2) as [Ha Hb].
+  destruct (m_index e x He H1 H2) as (Hj & _).
+  set (j := pred (length (filter (fun v : R => Rleb v x) e))) in *.
+  assert (HL : length t = length e) by (destruct Ht as (HL & _); exact HL).
+  pose proof (m_tab_bounds e t j Ht ltac:(lia)) as B1.
+  pose proof (m_tab_bounds e t (S j) Ht ltac:(lia)) as B2.
+  lra.
+Qed.
+
+Lemma m_cdf_mono_gen : forall (e t : list R) (x y : R), m_inc e -> m_tab e t -> x <= y ->
+  rvh_cdf (A:=RealA) e t x <= rvh_cdf (A:=RealA) e t y.
+Proof.
+  intros e t x y He Ht Hxy.
+  pose proof (m_cdf_range_gen e t x He Ht) as Rx.
+  pose proof (m_cdf_range_gen e t y He Ht) as Ry.
+  destruct (Rle_lt_dec x (hd 0 e)) as [X1|X1].
+  { rewrite (rvh_cdf_below e t x) by exact X1. lra. }
+  destruct (Rle_lt_dec (last e 0) y) as [Y2|Y2].
+  { rewrite (rvh_cdf_above e t y) by (try assumption; lra). lra. }
+  assert (Y1 : hd 0 e < y) by lra.
+  assert (X2 : x < last e 0) by lra.
+  destruct (m_index e x He X1 X2) as (Hjx & Hx1 & Hx2).
+  destruct (m_index e y He Y1 Y2) as (Hjy & Hy1 & Hy2).
+  pose proof (m_cdf_seg e t x He Ht X1 X2) as [Sx1 Sx2].
+  pose proof (m_cdf_seg e t y He Ht Y1 Y2) as [Sy1 Sy2].
+  pose proof (m_cdf_inside e t x X1 X2) as Ex.
+  pose proof (m_cdf_inside e t y Y1 Y2) as Ey.
+  set (jx := pred (length (filter (fun v : R => Rleb v x) e))) in *.
+  set (jy := pred (length (filter (fun v : R => Rleb v y) e))) in *.
+  destruct Ht as (HL & _ & _ & Hm).
+  assert (Hlt : (jx < S jy)%nat).
+  { apply (m_inc_idx e jx (S jy) He); [lia | lia | lra]. }
+  destruct (Nat.eq_dec jx jy) as [Ejj|Nejj].
+  - rewrite Ex, Ey. rewrite <- Ejj. apply m_interp_mono; [apply Hm; lia | apply He; lia | exact Hxy].
+  - apply Rle_trans with (nth (S jx) t 0); [exact Sx2|].
+    apply Rle_trans with (nth jy t 0); [|exact Sy1].
+    apply m_nondecr_le; [exact Hm | lia | lia].
+Qed.
+
+Lemma m_valid_tab : forall h : list Z * list R, valid_hist h ->
+  m_tab (snd h) (rvh_cdf_table (A:=RealA) (fst h) (snd h)).
+Proof. intros h Hv. exact (rvh_table_props h Hv). Qed.
+
+Lemma rvh_cdf_range : forall (h : list Z * list R) (x : R), valid_hist h ->
+  0 <= rvh_cdf (A:=RealA) (snd h) (rvh_cdf_table (A:=RealA) (fst h) (snd h)) x <= 1.
+Proof.
+  intros h x Hv. apply m_cdf_range_gen; [apply m_valid_inc | apply m_valid_tab]; exact Hv.
+Qed.
+
+Lemma rvh_cdf_mono : forall (h : list Z * list R) (x y : R), valid_hist h -> x <= y ->
+  rvh_cdf (A:=RealA) (snd h) (rvh_cdf_table (A:=RealA) (fst h) (snd h)) x <=
+  rvh_cdf (A:=RealA) (snd h) (rvh_cdf_table (A:=RealA) (fst h) (snd h)) y.
+Proof.
+  intros h x y Hv Hxy. apply m_cdf_mono_gen; [apply m_valid_inc | apply m_valid_tab | exact Hxy]; exact Hv.
+Qed.
+
+(** masses of a non-decreasing function over sorted points *)
+Lemma m_diffF_nonneg : forall (F : R -> R) (pts : list R), (forall x y : R, x <= y -> F x <= F y) ->
+  Sorted Rle pts -> nonneg (diffF (A:=RealA) F pts).
+Proof.
+  intros F pts HF. induction pts as [|a r IH]; intros Hs; [constructor|].
+  destruct r as [|b r]; [constructor|].
+  apply Sorted_inv in Hs. destruct Hs as [Hs Hhd]. apply HdRel_inv in Hhd.
+  change (diffF (A:=RealA) F (a :: b :: r)) with ((F b - F a) :: diffF (A:=RealA) F (b :: r)).
+  constructor; [|apply IH; exact Hs].
+  pose proof (HF a b Hhd). lra.
+Qed.
+
+(* hence the discretised masses over sorted points are non-negative *)
+Lemma masses_nonneg : forall (h : list Z * list R) (pts : list R), valid_hist h -> Sorted Rle pts ->
+  nonneg (masses (A:=RealA) (fst h) (snd h) pts).
+Proof.
+  intros h pts Hv Hs. unfold masses. apply m_diffF_nonneg; [|exact Hs].
+  intros x y Hxy. apply rvh_cdf_mono; assumption.
+Qed.
+
+(** * Part N — JS / KL with the repaired discretisation (points spanning both histogram supports),
+      relative to the contract [valid_hist] of the oracle [np.histogram(bins="auto")] *)
+
+Lemma n_diffF_sum : forall (F : R -> R) (a : R) (pts : list R),
+  sumA (A:=RealA) (diffF (A:=RealA) F (a :: pts)) = F (last (a :: pts) 0) - F a.
+Proof.
+  intros F a pts. revert a. induction pts as [|b pts IH]; intros a.
+  - cbn. sumA0. lra.
+  - change (diffF (A:=RealA) F (a :: b :: pts)) with ((F b - F a) :: diffF (A:=RealA) F (b :: pts)).
+    rewrite sumA_cons, IH. change (last (a :: b :: pts) 0) with (last (b :: pts) 0). lra.
+Qed.
+
+(** both supports inside the discretised range => the masses total exactly 1 *)
+Lemma masses_sum_one : forall (c : list Z) (e : list R) (lo hi : R) (nb : nat), (2 <= nb)%nat ->
+  hd 0 e < last e 0 -> lo <= hd 0 e -> last e 0 <= hi ->
+  sumA (A:=RealA) (masses (A:=RealA) c e (linspace (A:=RealA) lo hi nb)) = 1.
+Proof.
+  intros c e lo hi nb Hnb He Hlo Hhi. destruct nb as [|n]; [lia|]. assert (Hn : (1 <= n)%nat) by lia.
+  pose proof (linspace_first lo hi n Hn) as Hf. pose proof (linspace_last lo hi n Hn) as Hl.
+  pose proof (linspace_length lo hi (S n)) as HL.
+  unfold masses. destruct (linspace lo hi (S n)) as [|a pts]; [discriminate|].
+  rewrite n_diffF_sum. cbn [hd] in Hf. subst a. change (num RealA) with R in *. rewrite Hl.
+  rewrite rvh_cdf_below by lra. rewrite rvh_cdf_above by lra. lra.
+Qed.
+
+Lemma n_span : forall eX eY : list R,
+  lmin (A:=RealA) [hd 0 eX; hd 0 eY] <= hd 0 eX /\ lmin (A:=RealA) [hd 0 eX; hd 0 eY] <= hd 0 eY /\
+  last eX 0 <= lmax (A:=RealA) [last eX 0; last eY 0] /\ last eY 0 <= lmax (A:=RealA) [last eX 0; last eY 0].
+Proof.
+  intros. repeat split; first [apply lmin_le | apply lmax_ge]; cbn; auto.
+Qed.
+
+Lemma support_points_swap : forall (eX eY : list R) (nb : nat),
+  support_points (A:=RealA) eY eX nb = support_points (A:=RealA) eX eY nb.
+Proof.
+  intros. unfold support_points. change (@zero RealA) with 0.
+  rewrite (lmin_perm _ _ (perm_swap (hd 0 eX) (hd 0 eY) [])), (lmax_perm _ _ (perm_swap (last eX 0) (last eY 0) [])).
+  reflexivity.
+Qed.
+
+(** the nan guard of js.py (f367129) over the reals: a finite SciPy value is returned unchanged,
+    a nan (a zero total: 0/0) becomes 0 *)
+Lemma js_f_of_fin : forall (P Q : list R) (v : R), jensenshannon (A:=RealA) P Q = Fin v -> js_f (A:=RealA) P Q = Fin v.
+Proof.
+  intros P Q v H. unfold js_f. rewrite H. cbn [eqb RealA].
+  destruct (Reqb v v) eqn:E; [reflexivity|]. apply Reqb_false in E. congruence.
+Qed.
+Lemma js_f_not_nan : forall P Q : list R, js_f (A:=RealA) P Q <> NaN.
+Proof.
+  intros P Q. unfold js_f. destruct (jensenshannon P Q) as [w| |]; try discriminate.
+  destruct (@eqb RealA w w); discriminate.
+Qed.
+Lemma js_f_sym : forall P Q : list R, js_f (A:=RealA) P Q = js_f (A:=RealA) Q P.
+Proof. intros. unfold js_f. rewrite (js_sym P Q). reflexivity. Qed.
+
+Lemma js_dist_sym : forall (nb : nat) (hX hY : list Z * list R),
+  js_dist (A:=RealA) nb hX hY = js_dist (A:=RealA) nb hY hX.
+Proof. intros. unfold js_dist. rewrite (support_points_swap (snd hX) (snd hY)). apply js_f_sym. Qed.
+
+Lemma n_support_sorted : forall (hX hY : list Z * list R) (nb : nat), valid_hist hX -> valid_hist hY -> (2 <= nb)%nat ->
+  Sorted Rle (support_points (A:=RealA) (snd hX) (snd hY) nb).
+Proof.
+  intros hX hY nb VX VY Hnb. unfold support_points. change (@zero RealA) with 0.
+  destruct nb as [|n]; [lia|]. apply linspace_sorted; [lia|].
+  pose proof (n_span (snd hX) (snd hY)) as (H1 & _ & H3 & _). pose proof (valid_hist_range hX VX). lra.
+Qed.
+
+(** the two discretised mass vectors are probability vectors of the same length *)
+Lemma masses_valid : forall (nb : nat) (hX hY : list Z * list R), valid_hist hX -> valid_hist hY -> (2 <= nb)%nat ->
+  let pts := support_points (A:=RealA) (snd hX) (snd hY) nb in
+  isdist (masses (A:=RealA) (fst hX) (snd hX) pts) /\ isdist (masses (A:=RealA) (fst hY) (snd hY) pts) /\
+  length (masses (A:=RealA) (fst hX) (snd hX) pts) = length (masses (A:=RealA) (fst hY) (snd hY) pts).
+Proof.
+  intros nb hX hY VX VY Hnb pts.
+  pose proof (n_support_sorted hX hY nb VX VY Hnb) as HS.
+  pose proof (n_span (snd hX) (snd hY)) as (H1 & H2 & H3 & H4).
+  split; [|split].
+  - split; [apply masses_nonneg; auto|]. unfold pts, support_points. change (@zero RealA) with 0.
+    apply masses_sum_one; auto. apply valid_hist_range; auto.
+  - split; [apply masses_nonneg; auto|]. unfold pts, support_points. change (@zero RealA) with 0.
+    apply masses_sum_one; auto. apply valid_hist_range; auto.
+  - rewrite !masses_length. reflexivity.
+Qed.
+
+(** JS: a number in [0, sqrt (ln 2)] for all valid histograms and num_bins >= 2 *)
+Lemma js_dist_range : forall (nb : nat) (hX hY : list Z * list R), valid_hist hX -> valid_hist hY -> (2 <= nb)%nat ->
+  exists v : R, js_dist (A:=RealA) nb hX hY = Fin v /\ 0 <= v /\ v <= sqrt (ln 2).
+Proof.
+  intros nb hX hY VX VY Hnb. destruct (masses_valid nb hX hY VX VY Hnb) as ((HP & HsP) & (HQ & HsQ) & HL).
+  unfold js_dist.
+  destruct (js_range _ _ HP HQ HL ltac:(lra) ltac:(lra)) as (v & Hv & Hr).
+  exists v. split; [apply js_f_of_fin; exact Hv | exact Hr].
+Qed.
+Lemma js_dist_self : forall (nb : nat) (h : list Z * list R), valid_hist h -> (2 <= nb)%nat ->
+  js_dist (A:=RealA) nb h h = Fin 0.
+Proof.
+  intros nb h V Hnb. destruct (masses_valid nb h h V V Hnb) as ((HP & HsP) & _).
+  unfold js_dist. apply js_f_of_fin. apply js_self; auto; lra.
+Qed.
+(** KL(test || reference): +inf or a non-negative number *)
+Lemma kl_dist_nonneg : forall (nb : nat) (hX hY : list Z * list R), valid_hist hX -> valid_hist hY -> (2 <= nb)%nat ->
+  kl_dist (A:=RealA) nb hX hY = PInf \/ exists v : R, kl_dist (A:=RealA) nb hX hY = Fin v /\ 0 <= v.
+Proof.
+  intros nb hX hY VX VY Hnb. destruct (masses_valid nb hX hY VX VY Hnb) as ((HP & HsP) & (HQ & HsQ) & HL).
+  unfold kl_dist. apply kl_nonneg; auto; lra.
+Qed.
+Lemma kl_dist_self : forall (nb : nat) (h : list Z * list R), valid_hist h -> (2 <= nb)%nat ->
+  kl_dist (A:=RealA) nb h h = Fin 0.
+Proof.
+  intros nb h V Hnb. destruct (masses_valid nb h h V V Hnb) as ((HP & _) & _).
+  unfold kl_dist. apply kl_self; auto.
+Qed.
+
+(** two constant samples: NumPy's auto histogram of [n] copies of [c] is one bin [c-1/2, c+1/2] *)
+Definition const_hist (n : Z) (c : R) : list Z * list R := ([n], [c - 1/2; c + 1/2]).
+
+Lemma const_hist_valid : forall (n : Z) (c : R), (0 < n)%Z -> valid_hist (const_hist n c).
+Proof.
+  intros n c Hn. unfold valid_hist, const_hist. cbn [fst snd length].
+  split; [reflexivity|]. split; [discriminate|]. split.
+  - intros i Hi. assert (i = 0%nat) by lia. subst. cbn. lra.
+  - split; [constructor; [lia | constructor] | cbn; lia].
+Qed.
+
+Lemma n_const_table : forall (n : Z) (c : R), (0 < n)%Z ->
+  rvh_cdf_table (A:=RealA) [n] [c - 1/2; c + 1/2] = [0; 1].
+Proof.
+  intros n c Hn. assert (Hp : 0 < IZR n) by (apply IZR_lt; auto).
+  unfold rvh_cdf_table. cbn [diffA map2 map]. unfold sumA. cbn [fold_left].
+  cbn [add sub mul div ofZ RealA]. change (@zero RealA) with 0.
+  f_equal. f_equal. eqR. field. lra.
+Qed.
+
+(** equal constant samples (any sizes): JS = 0 and KL = 0 — the repaired behaviour of F29 *)
+Lemma js_kl_const_equal : forall (nb : nat) (n m : Z) (c : R), (0 < n)%Z -> (0 < m)%Z -> (2 <= nb)%nat ->
+  js_dist (A:=RealA) nb (const_hist n c) (const_hist m c) = Fin 0 /\
+  kl_dist (A:=RealA) nb (const_hist n c) (const_hist m c) = Fin 0.
+Proof.
+  intros nb n m c Hn Hm Hnb.
+  pose proof (js_dist_self nb (const_hist n c) (const_hist_valid n c Hn) Hnb) as HJ.
+  pose proof (kl_dist_self nb (const_hist n c) (const_hist_valid n c Hn) Hnb) as HK.
+  unfold js_dist, kl_dist, masses, const_hist in *. cbn [fst snd] in *.
+  rewrite (n_const_table m c Hm). rewrite (n_const_table n c Hn) in HJ, HK. split; assumption.
 Qed.
 
